@@ -3383,7 +3383,16 @@ theorem fileStep_read (s : OStore) (v : OView) (hd : Handle) (ap : Bytes) (k : N
 theorem fileStep_readAt (s : OStore) (v : OView) (hd : Handle) (ap : Bytes) (k : Nat) (off : Int) :
     StoreStep s (fileStep s v hd ap (.readAt k off)).1 := by file_step_tac
 theorem fileStep_write (s : OStore) (v : OView) (hd : Handle) (ap : Bytes) (b : Bytes) :
-    StoreStep s (fileStep s v hd ap (.write b)).1 := by file_step_tac
+    StoreStep s (fileStep s v hd ap (.write b)).1 := by
+  -- the size test `pos + len(b) > maxFileSize` has the O_APPEND choice inside its condition: decide that first
+  unfold StoreStep fileStep; dsimp only
+  cases hap : (hd.om &&& omAppend != 0) <;> simp only [Bool.false_eq_true, if_false, if_true] <;> repeat' split
+  all_goals first
+    | exact Or.inl rfl
+    | (refine Or.inr ⟨_, ?_, _, ?_, ?_, rfl⟩
+       rotate_left
+       · assumption
+       · exact ⟨rfl, rfl, rfl⟩)
 theorem fileStep_writeAt (s : OStore) (v : OView) (hd : Handle) (ap : Bytes) (b : Bytes) (off : Int) :
     StoreStep s (fileStep s v hd ap (.writeAt b off)).1 := by file_step_tac
 theorem fileStep_seek (s : OStore) (v : OView) (hd : Handle) (ap : Bytes) (off wh : Int) :
